@@ -146,6 +146,8 @@ def make_scenario(idx, mode, path, moment, entry, delay=None):
 
 def case_of(sc):
     c = {k: sc[k] for k in ("mode", "path", "moment", "entry", "delay")}
+    if sc.get("backlog"):
+        c["backlog"] = sc["backlog"]
     return c
 
 
@@ -165,7 +167,15 @@ def gen_scenarios(ctx):
         for path in PATHS:
             for d in delays:
                 out.append((mode, path, rng.choice(MOMENTS), rng.choice(ENTRIES), d))
-    return [make_scenario(i, *t) for i, t in enumerate(out)]
+    scs = [make_scenario(i, *t) for i, t in enumerate(out)]
+    # a backlog of outgoing data (60 x 16 KiB: more than the pipe and the transport buffers hold) towards a child that does
+    # not read: the writer task is blocked inside process.stdin.send() when the context is left
+    for mode in ("never_reads", "never_reads_ign"):
+        for path in PATHS:
+            sc = make_scenario(len(scs), mode, path, "before", rng.choice(ENTRIES))
+            sc["backlog"] = 60
+            scs.append(sc)
+    return scs
 
 
 SPAWN_KINDS = ["missing", "missing-cancel-scope-in-path", "not-executable", "directory", "garbage-executable", "empty-command"]
@@ -525,6 +535,8 @@ def replay(ctx, data):
             scs = [s for s in gen_spawn(tmp, 0) if s["spawn"] == case["spawn"] and s["entry"] == case["entry"]]
         else:
             scs = [make_scenario(0, case["mode"], case["path"], case["moment"], case["entry"], case.get("delay") or None)]
+            if case.get("backlog"):
+                scs[0]["backlog"] = case["backlog"]
         fails = 0
         for attempt in range(2):
             res = run_workers(scs, 1)
